@@ -200,6 +200,12 @@ def run_case(case, ctx):
         et, fn = exc_sig(e)
         ctx.violation("exception", "%s raised at r=%r: %s %s" % (tag, r, et, e), what="exception", exc=et, func=fn, variant="eval")
         return
+      if o.mag(rr) == mp.mpf("inf"):
+        ctx.count("out_of_domain_points")   # no magnitude bound (ill-conditioned exponential spline): format invariance still judged
+        if any(v != vals[0] and not (v != v and vals[0] != vals[0]) for v in vals[1:]):
+          ctx.violation("format_dependence", "%s at r=%r differs between formatting variants of one file: %r" % (tag, r, vals), what="format_dependence")
+          return
+        continue
       ok, diff, tol = R.close(vals[0], ref, sc=o.vscale(rr) if r != 0 else abs(ref), mag=o.mag(rr))
       ctx.count("values_compared")
       if not ok:
